@@ -15,6 +15,7 @@ PROPS["C09"] = dict(
         dict(test="^TestC09_(Replay|Exhaustive)$", quick=dict(timeout=600), thorough=dict(timeout=1800)),
         dict(test="^TestC09_Exhaustive4$", thorough=dict(shards=4, timeout=3600)),
         dict(test="^TestC09_(Random|Layouts)$", quick=dict(checks=1500, timeout=600), thorough=dict(checks=20000, shards=8, timeout=3000)),
+        dict(test="^TestC09_ConcurrentLayouts$", quick=dict(checks=40, timeout=600), thorough=dict(checks=800, shards=2, timeout=3000)),
     ],
     fuzz=[dict(target="FuzzC09", seconds=90)],
 )
@@ -155,6 +156,7 @@ PROPS["C05"] = dict(
         dict(test="^Test(Regress_C05|C05_AsyncStop)$", quick=dict(checks=150, timeout=900), thorough=dict(checks=3000, shards=8, timeout=3000)),
         dict(test="^TestC05_Kinds$", quick=dict(checks=150, timeout=900), thorough=dict(checks=3000, shards=8, timeout=3000)),
         dict(test="^TestC05_RollingDescriptors$", quick=dict(timeout=900), thorough=dict(shards=4, timeout=3000)),
+        dict(test="^TestC05_FailingTarget$", quick=dict(checks=60, timeout=900), thorough=dict(checks=1500, shards=2, timeout=3000)),
     ],
 )
 
